@@ -9,8 +9,8 @@ use sqlgrep::Statement;
 use crate::exprs::*;
 use crate::util::{hex, hexs, value_sexp, Rng};
 
-pub const MAIN_DEF: &str = "CREATE TABLE t(line = '^([a-z]+)?;(-?[0-9]+)?;(-?[0-9]+)?;([^;]+)?;([^;]+)?;(!)?$', line[1] => k TEXT, line[2] => v INT, line[3] => w INT, line[4] => r REAL, line[5] => s TEXT);";
-pub const MAIN_DEF_BOOL: &str = "CREATE TABLE t(line = '^([a-z]+)?;(-?[0-9]+)?;(-?[0-9]+)?;([^;]+)?;([^;]+)?;(!)?$', line[1] => k TEXT, line[2] => v INT NOT NULL, line[3] => w INT, line[4] => r REAL, line[5] => s TEXT DEFAULT 'dflt', line[6] => b BOOLEAN);";
+pub const MAIN_DEF: &str = "CREATE TABLE t(line = '^([a-z]+)?;(-?[0-9]+)?;(-?[0-9]+)?;([^;]+)?;(?:~|([^;]*));(!)?$', line[1] => k TEXT, line[2] => v INT, line[3] => w INT, line[4] => r REAL, line[5] => s TEXT);";
+pub const MAIN_DEF_BOOL: &str = "CREATE TABLE t(line = '^([a-z]+)?;(-?[0-9]+)?;(-?[0-9]+)?;([^;]+)?;(?:~|([^;]*));(!)?$', line[1] => k TEXT, line[2] => v INT NOT NULL, line[3] => w INT, line[4] => r REAL, line[5] => s TEXT DEFAULT 'dflt', line[6] => b BOOLEAN);";
 pub const JOIN_DEF: &str = "CREATE TABLE u(row = '^#([a-z]+)?;(-?[0-9]+)?;([^;]+)?$', row[1] => k TEXT, row[2] => v INT, row[3] => y TEXT);";
 
 pub struct Schema {
@@ -25,7 +25,8 @@ pub fn gen_schema(rng: &mut Rng) -> Schema {
 
 const KEYS: &[&str] = &["a", "b", "c", "ab", "z"];
 const REALS: &[&str] = &["0.5", "1.5", "-2.25", "100", "0", "-0.0", "3", "1e3", "nan", "inf", "x"];
-const TEXTS2: &[&str] = &["x", "y", "hello", "é", "q q", "10", "'", "a,b"];
+// column s is `(?:~|([^;]*))`: the field `~` is NULL, every other field — the EMPTY one included — is that TEXT
+const TEXTS2: &[&str] = &["x", "y", "hello", "é", "q q", "10", "'", "a,b", "", ""];
 
 pub fn gen_int_field(rng: &mut Rng, extreme: bool) -> String {
     match rng.below(if extreme { 8 } else { 6 }) {
@@ -48,7 +49,8 @@ pub fn gen_line(rng: &mut Rng, null_pct: u64, extreme: bool) -> String {
     let w = gen_int_field(rng, extreme);
     let r = (*rng.pick(REALS)).to_owned();
     let s = (*rng.pick(TEXTS2)).to_owned();
-    format!("{};{};{};{};{};{}", f(rng, k), f(rng, v), f(rng, w), f(rng, r), f(rng, s), if rng.chance(1, 2) { "!" } else { "" })
+    let s = if rng.chance(null_pct, 100) { "~".to_owned() } else { s };
+    format!("{};{};{};{};{};{}", f(rng, k), f(rng, v), f(rng, w), f(rng, r), s, if rng.chance(1, 2) { "!" } else { "" })
 }
 
 pub fn gen_join_line(rng: &mut Rng) -> String {
